@@ -419,6 +419,28 @@ def check_extras(case):
             if not same(ix, wi) or not same(ex, we):
                 out.viol('wrong-rows', 'inc / exc(lambda x: %s) on x=%r (no other distinguishing column): inc.x=%r exc.x=%r, expected %r / %r' % (pname, tcells, ix, ex, wi, we),
                          op='inc/exc', equal_records=True)
+    # ---- a column literally called 'key' filtered by keyword through find_<col>: a condition like any other
+    if n:
+        out.sub()
+        kk = ['k%d' % i for i in range(n)]
+        d = dictable({'key': list(kk), 'data': ['d%d' % i for i in range(n)], 'y': list(range(n))})
+        for i in range(n):
+            try:
+                got = d.find_data(key=kk[i])
+                got2 = d.find_y(key=[kk[i]])
+                out.call(2)
+                if got != 'd%d' % i or got2 != i:
+                    out.viol('find-wrong', "table with columns key, data, y: find_data(key=%r) returned %r (expected %r), find_y(key=[%r]) returned %r (expected %d)" % (kk[i], got, 'd%d' % i, kk[i], got2, i),
+                             col='key-column')
+            except Exception as e:
+                out.viol('find-wrong-exception', 'table with columns key, data, y: find_data(key=%r) raised %s: %s' % (kk[i], type(e).__name__, e), col='key-column')
+        try:
+            d.find_data(key='absent')
+            out.viol('find-not-raised', "find_data(key='absent') returned although no row has that key", col='key-column', n=0)
+        except ValueError:
+            out.call()
+        except Exception as e:
+            out.viol('find-wrong-exception', "find_data(key='absent') raised %s: %s (expected ValueError)" % (type(e).__name__, e), col='key-column')
     # ---- underscored column names
     if n:
         out.sub()
